@@ -25,18 +25,34 @@ def _verdicts(A):
             for k, vs in A.acc.items()}
 
 
-def analyse(f, types, state_ids=None, inv=None, post=None, inv_hard=None, post_hard=None):
+def struct_pointers(f, stt, prog, skip=()):
+    """{variable id: (group, record)} for the structure pointers of f other than its family state"""
+    from . import sb
+    out = {}
+    for pi, rn in (stt.get(f.name) or {}).items():
+        if pi < 0 or rn not in prog.records:
+            continue
+        ids = sb.state_aliases(f, pi)
+        if ids & set(skip):
+            continue
+        for i in ids:
+            out[i] = (pi, rn)
+    return out
+
+
+def analyse(f, types, state_ids=None, inv=None, post=None, inv_hard=None, post_hard=None, other=None, rec=None):
     """{(line, text): (verdict, detail)} for one function.  inv / post: the invariant of the state fields proved for
     the family, assumed at entry and after calls into the family (inv_hard: the same, inferred without type ranges,
     for the runs a report may rest on)."""
-    DS = fx.FxAnalyzer(f, types, soft=True, state_ids=state_ids, entry_fields=inv, callee_post=post).run()
+    kw = dict(state_ids=state_ids, other_ptrs=other, state_rec=rec)
+    DS = fx.FxAnalyzer(f, types, soft=True, entry_fields=inv, callee_post=post, **kw).run()
     ds = _verdicts(DS)
     out = {}
     if all(v == "inside" for v in ds.values()):
         return {k: ("inside", None) for k in ds}, DS.truncated
-    DH = fx.FxAnalyzer(f, types, soft=False, state_ids=state_ids, entry_fields=inv_hard, callee_post=post_hard).run()
-    KH = fx.FxAnalyzer(f, types, soft=False, state_ids=state_ids, entry_fields=inv_hard, callee_post=post_hard).run_classic()
-    KS = fx.FxAnalyzer(f, types, soft=True, state_ids=state_ids, entry_fields=inv, callee_post=post).run_classic()
+    DH = fx.FxAnalyzer(f, types, soft=False, entry_fields=inv_hard, callee_post=post_hard, **kw).run()
+    KH = fx.FxAnalyzer(f, types, soft=False, entry_fields=inv_hard, callee_post=post_hard, **kw).run_classic()
+    KS = fx.FxAnalyzer(f, types, soft=True, entry_fields=inv, callee_post=post, **kw).run_classic()
     dh, kh, ks = _verdicts(DH), _verdicts(KH), _verdicts(KS)
     for k in ds:
         if ds[k] == "inside" or ks.get(k) == "inside":
@@ -171,12 +187,15 @@ def check_fixed_extent(res, config, floor):
         posth = {f.name: invh for f, _ in members}
         for f, ids in members:
             # a function over two state structures (none on the tree) keeps the first
-            ctx.setdefault((f.relfile, f.name), (ids, inv, post, invh, posth))
+            ctx.setdefault((f.relfile, f.name), (ids, inv, post, invh, posth, rn))
+    from . import c14
+    stt = c14.state_types(prog)
     for f in prog.all_funcs():
         if f.body is None:
             continue
-        ids, inv, post, invh, posth = ctx.get((f.relfile, f.name), (None, None, None, None, None))
-        r, trunc = analyse(f, types, ids, inv, post, invh, posth)
+        ids, inv, post, invh, posth, rn = ctx.get((f.relfile, f.name), (None, None, None, None, None, None))
+        other = struct_pointers(f, stt, prog, skip=ids or ())
+        r, trunc = analyse(f, types, ids, inv, post, invh, posth, other, rn)
         if not r:
             continue
         funcs += 1
